@@ -19,7 +19,7 @@ COMPONENTS = {"real": ["pyjelly generic serializer, TermEncoder, LookupEncoder/L
               "stub": ["reader: simkit.refdec"]}
 ASSUMPTIONS = ["which table is exceeded is computed from the workload (conventional IRI split), independently of "
                "the failing output"]
-PROBES = ["over_prefix", "over_name", "over_datatype", "decoded_ok"]
+PROBES = ["over_prefix", "over_name", "over_datatype", "decoded_ok", "raised"]
 SHRINK_LISTS = ["ops"]
 
 
